@@ -391,6 +391,10 @@ pub fn clusters() -> &'static Vec<Vec<Family>> {
                 fam(Color, &["rgb(255, 0, 0.4)"]),
                 fam(Color, &["rgb(255, 0, 0.6)"]),
                 fam(Color, &["rgba(255, 0, 0, 0.6)"]),
+                // different HSL channels, same 8-bit RGB colour (== is decided on the RGB channels)
+                fam(Color, &["#808080", "hsl(0, 0%, 50%)", "hsl(120, 0%, 50%)", "grey"]),
+                fam(Color, &["rgb(255, 1, 1)", "hsl(0, 100%, 50.1%)", "hsl(0, 100%, 50.15%)"]),
+                fam(Color, &["black", "hsl(0, 50%, 0%)", "hsl(200, 0%, 0%)", "#000"]),
             ],
             // 8: singletons
             vec![
